@@ -8,7 +8,7 @@ Rec == ndJsonDeserialize(IOEnv.TRACE)
 VARIABLES l, c       \* c = line of the reset that started the current history
 
 NReq(r) == [from |-> r.from,
-            entries |-> [i \in DOMAIN r.entries |-> [id |-> r.entries[i].id, kind |-> r.entries[i].kind, ext |-> r.entries[i].ext,
+            entries |-> [i \in DOMAIN r.entries |-> [id |-> r.entries[i].id, sys |-> r.entries[i].sys, kind |-> r.entries[i].kind, ext |-> r.entries[i].ext,
                                                     attrs |-> [a \in DOMAIN r.entries[i].attrs |-> Range(r.entries[i].attrs[a])]]],
             retain |-> [mode |-> r.retain.mode, ids |-> Range(r.retain.ids)]]
 YldOf(St, A) == IF A \in DOMAIN St THEN AttrVals(St[A], "sync_yield_authority") ELSE {}
